@@ -1,9 +1,6 @@
 package harness
 
 import (
-	"fmt"
-	"os"
-	"runtime/pprof"
 	"testing"
 
 	"verif/harness/core"
@@ -12,31 +9,4 @@ import (
 
 // TestRun executes the one check named by VERIF_PROP and exits with its status
 // (0 held, 1 violation, 2 harness failure).
-func TestRun(t *testing.T) {
-	id := os.Getenv("VERIF_PROP")
-	if id == "" {
-		t.Skip("VERIF_PROP not set; registered checks: ", core.IDs())
-	}
-	ck, ok := core.Lookup(id)
-	if !ok {
-		fmt.Printf("HARNESS-ERROR no check registered for %s\n", id)
-		os.Exit(2)
-	}
-	c := core.NewC(t, ck)
-	if pf := os.Getenv("VERIF_CPUPROFILE"); pf != "" {
-		f, _ := os.Create(pf)
-		_ = pprof.StartCPUProfile(f)
-		defer pprof.StopCPUProfile()
-	}
-	if p := core.Catch(func() { ck.Run(c) }); p != "" {
-		c.Broken("check panicked: %s", p)
-	}
-	code := c.Finish()
-	if mf := os.Getenv("VERIF_MEMPROFILE"); mf != "" {
-		f, _ := os.Create(mf)
-		_ = pprof.Lookup("allocs").WriteTo(f, 0)
-		f.Close()
-	}
-	pprof.StopCPUProfile()
-	os.Exit(code)
-}
+func TestRun(t *testing.T) { core.RunFromEnv(t) }
